@@ -48,6 +48,9 @@ notify::notify() : _sysfd(-1), _fdused(0)
 {
 	_disp.cmd = 0;
 	_disp.arg = 0;
+	// notifier functions create and type these arrays themselves
+	_slot.unique_array<reference<input> >::operator=(reference<content<reference<input> > >());
+	_wait.unique_array<input *>::operator=(reference<content<input *> >());
 }
 notify::~notify()
 {
